@@ -227,7 +227,7 @@ def check_splitter(case):
 # ------------------------------------------------------------------ (c) protein guesser
 @st.composite
 def protein_case(draw):
-    nres = draw(st.integers(2, 6))
+    nres = draw(st.integers(2, 7))
     sizes1 = [draw(st.integers(1, 7)) for _ in range(nres)]
     sizes2 = [draw(st.integers(1, 12)) for _ in range(nres)]
     unequal = draw(st.integers(0, 4)) == 0
@@ -237,13 +237,18 @@ def protein_case(draw):
     return {"sizes1": sizes1, "sizes2": sizes2, "names": names, "unequal": unequal, "seed": draw(gen.SEEDS)}
 
 
-def _protein(name, sizes, resnames, rng):
+def _protein(name, sizes, resnames, rng, chains=1):
     n = sum(sizes)
     edges = [[k, k + 1] for k in range(n - 1)]
     residues = []
     k = 0
+    half = (len(sizes) + 1) // 2 if chains == 2 and len(sizes) >= 4 else None
     for r, sz in enumerate(sizes):
-        residues.append([resnames[r], r + 1, ["C%d" % (k + i + 1) for i in range(sz)]])
+        if half:
+            # two chains with the same sequence, each numbered from 1: the labels "1GLY", "2ALA", ... occur twice
+            residues.append([resnames[r % half], r % half + 1, ["C%d" % (k + i + 1) for i in range(sz)]])
+        else:
+            residues.append([resnames[r], r + 1, ["C%d" % (k + i + 1) for i in range(sz)]])
         k += sz
     spec = {"name": name, "edges": edges, "residues": residues}
     return gen.with_coords(spec, gen.walk_geometry(n, edges, rng))
@@ -251,8 +256,9 @@ def _protein(name, sizes, resnames, rng):
 
 def check_protein(case):
     rng = np.random.default_rng(case["seed"])
-    m1 = build_molecule(_protein("PROT", case["sizes1"], case["names"], rng))
-    m2 = build_molecule(_protein("PROT", case["sizes2"], case["names"], rng))
+    chains = 2 if case["seed"] % 3 == 1 else 1
+    m1 = build_molecule(_protein("PROT", case["sizes1"], case["names"], rng, chains))
+    m2 = build_molecule(_protein("PROT", case["sizes2"], case["names"], rng, chains))
     if case["seed"] % 3 == 0:
         # atom and residue numbers as a large coordinate file shows them: not starting at 1, wrapping 99999 -> 0 inside
         # the molecule (restraints are positions in the molecule, never file numbers)
